@@ -29,7 +29,7 @@ META = {
         "symmetries.calc_phase_permutation",
     ],
     "floors": {
-        "quick": {"evaluations": 4000, "distinct_nontrivial": 800, "tables": {"op/tensordot": 1500, "op/transpose": 500, "op/matmul": 150, "op/trace": 100, "op/einsum": 150, "parity/odd-involved": 500, "feature/multi-label-operand": 300}},
+        "quick": {"evaluations": 4000, "distinct_nontrivial": 800, "tables": {"op/tensordot": 1500, "op/transpose": 500, "op/matmul": 150, "op/trace": 100, "op/einsum": 150, "parity/odd-involved": 500, "feature/multi-label-operand": 300, "feature/nested-conjugate-labels": 40, "feature/sector-with->=6-odd-contracted": 300}},
         "thorough": {"evaluations": 200000, "distinct_nontrivial": 40000, "tables": {"op/tensordot": 80000, "op/transpose": 20000}},
     },
     "exhaustive": {"quick": False, "thorough": False},
@@ -173,6 +173,20 @@ def case_random(ctx, rng):
                 if front:
                     axb = [i + 1 for i in axb]
                 ctx.count("feature", "multi-label-operand")
+        if rng.random() < 0.4 and a.blocks and len(labels_of(a)) >= 1:
+            # the second operand is the (transposed) conjugate of the first, dressed again: its
+            # labels are the conjugates in reverse order, so the pairs to evaluate are nested
+            a3 = dress(a, 700003, rng.random() < 0.5) if rng.random() < 0.6 else a
+            if a3 is not None:
+                a = a3
+                perm = tuple(rng.sample(range(a.ndim), a.ndim))
+                ob = ctx.call(lambda: a.conj().transpose(perm))
+                if ob.ok:
+                    b = ob.value
+                    nc = rng.randint(0, a.ndim)
+                    axb = rng.sample(range(a.ndim), nc)
+                    axa = [perm[j] for j in axb]
+                    ctx.count("feature", "nested-conjugate-labels" if len(labels_of(a)) >= 2 else "conjugate-labels")
     mode = rng.choice(["fused", "blockwise", "auto", "default"])
     res = check_contract(ctx, a, b, axa, axb, mode, "random", via=rng.choice(["function", "autoray"]))
     if res is not None and res.ndim == 0 and rng.random() < 0.5:
@@ -182,8 +196,30 @@ def case_random(ctx, rng):
         ctx.count("op", "tensordot-scalar")
         ph = res.phases.get((), 1)
         want = res.blocks[()] * ph if () in res.blocks else 0.0
+        s_lab, lab_left = G.canon_labels(labels_of(res))
+        if not lab_left:
+            # nothing but evaluated conjugate pairs is left of the labels: the number returned
+            # must be the fully evaluated one (a pair left pending on the preserved form would
+            # lose its sign here)
+            want = want * s_lab
         if not o.ok or is_array(o.value) or not np.array_equal(np.asarray(o.value), np.asarray(want)):
             ctx.violation("tensordot-scalar-form", f"scalar form {o.value if o.ok else o.exc!r} != preserved form {want!r}", {"a": describe(a, True), "b": describe(b, True), "axes": [list(axa), list(axb)]})
+
+
+def case_many_legs(ctx, rng):
+    """5..8 contracted legs of size-one sectors: up to 8 odd charges meet in one sector, so
+    the reversal / pairing signs are exercised beyond what <=4 legs can reach."""
+    sr = ctx.sr
+    sym = rng.choice(["Z2", "Z2", "U1", "Z4", "Z2Z2"])
+    ncon = rng.randint(5, 8)
+    fa, fb = rng.randint(0, 2), rng.randint(0, 2)
+    vals = gen.Values(rng, "int", "float64")
+    a, b, axa, axb = gen.contractible_pair(sr, rng, sym, True, na=ncon + fa, nb=ncon + fb, ncon=ncon, values=vals, maxd=1, maxc=2, sparsity=rng.choice([0.0, 0.3, 0.6]), nphase=rng.choice([0, 2]))
+    ctx.count("feature", f"contracted-legs-{ncon}")
+    nodd = max((sum(R.par(sym, s[i]) for i in axa) for s in a.blocks), default=0)
+    if nodd >= 6:
+        ctx.count("feature", "sector-with->=6-odd-contracted")
+    check_contract(ctx, a, b, axa, axb, rng.choice(["fused", "blockwise", "auto", "default"]), "many-legs")
 
 
 def case_matmul(ctx, rng):
@@ -433,6 +469,8 @@ def _enum_stream(ctx, name, space, runner, sym, quick_n, thorough_frac=1.0):
 def run(ctx):
     for _, rng in ctx.cases("random", ctx.budget(180000, 3500000)):
         ctx.run_case(case_random, ctx, rng)
+    for _, rng in ctx.cases("many-legs", ctx.budget(2500, 50000)):
+        ctx.run_case(case_many_legs, ctx, rng)
     for _, rng in ctx.cases("matmul", ctx.budget(20000, 300000)):
         ctx.run_case(case_matmul, ctx, rng)
     for _, rng in ctx.cases("trace", ctx.budget(15000, 200000)):
